@@ -226,8 +226,8 @@ def cases(prop, tier, hosts=None):
     n = 0
     for total in range(1, nmax + 1):
         for seq in sequences(total, depth, blocks):
-            if not useful(seq):
-                continue
+            if not useful(seq) and not (total == 4 and isinstance(seq[1] if len(seq) > 1 else None, tuple)):
+                continue   # sequences of definitions only say little - except that they must be accepted: kept for the shape 'x B[..] y' at size 4
             m = Model()
             m.run(seq)
             if m.unspecified:
